@@ -142,6 +142,20 @@ func ZZ_C18_EnsureCapacity() {
 	vAssume(m2 <= m)
 	s.ensureCapacity(m2)
 	vAssert(uint64(len(s.table)) == n, "c18.ensure.noshrink")
+	// growth of a sketch that has already recorded events: a fresh sampling period starts with the new table
+	// (zeroed counters, size 0, sample size of the new maximum), so that no estimate is halved early
+	m3 := vU64("m3")
+	vAssume(m3 > n && m3 <= 4*maxM)
+	vAssert(s.size >= 1 || s.sampleSize <= 1, "c18.ensure.regrow.recorded_before_growth")
+	s.ensureCapacity(m3)
+	n3 := uint64(len(s.table))
+	vAssert(n3 >= m3 && n3 > n, "c18.ensure.regrow.len")
+	vAssert(s.size == 0, "c18.ensure.regrow.sampling_period_restarts")
+	vAssert(s.sampleSize == 10*m3, "c18.ensure.regrow.samplesize")
+	vAssert(s.blockMask == n3/8-1, "c18.ensure.regrow.blockmask")
+	j := vInt("j")
+	vAssume(j >= 0 && uint64(j) < n3)
+	vAssert(s.table[j] == 0, "c18.ensure.regrow.zeroed")
 }
 
 // ZZ_C18_Admit: a candidate displaces the victim only if its estimate is strictly greater, apart from
